@@ -150,6 +150,7 @@ struct Options
   double wallCap = -1;
   bool digestOnly = false;
   bool noShrink = false;
+  std::string note;
 };
 
 // optional members of a property, detected at compile time
@@ -625,6 +626,7 @@ public:
     if (desc.has("components")) {cov.set("components", desc["components"]);}
     if (desc.has("oracles")) {cov.set("oracles", desc["oracles"]);}
     cov.set("worker_crashes", crashes).set("worker_hangs", hangs);
+    if (!opt_.note.empty()) {cov.set("sanitizer_slice", opt_.note);}
     cov.set("violations_reported", reported);
     cov.set("known_findings_seen", nKnown);
     Json ev = Json::object();
@@ -763,6 +765,7 @@ inline Options parseOptions(int argc, char ** argv)
     else if (a == "--wall-cap") {o.wallCap = atof(nextArg().c_str());}
     else if (a == "--digest-only") {o.digestOnly = true;}
     else if (a == "--no-shrink") {o.noShrink = true;}
+    else if (a == "--note") {o.note = nextArg();}
     else {std::fprintf(stderr, "unknown argument %s\n", a.c_str()); std::exit(2);}
   }
   if (o.tier != "quick" && o.tier != "thorough") {
